@@ -14,7 +14,7 @@ from typing import Dict, List, Optional, Set, Tuple
 from .. import astutil as A
 from .. import roles
 from .. import guards as G
-from ..model import AnalysisError, dotted, src
+from ..model import AnalysisError, Unknown, dotted, src
 
 TECHNIQUE = "queue-discipline usage classification, key/role agreement, must-once accounting and guard dominance over the EPR bookkeeping (static analysis)"
 ENGINES = ["model", "flow"]
@@ -274,15 +274,14 @@ def check_keys(ctx, ex):
         raise AnalysisError("qlink_compat.get_creator_node_id not found")
     ctx.fn("qlink_compat.get_creator_node_id")
     p_local, p_resp = A.param_names(g)
-    shape = None
-    for st in g.body:
-        if isinstance(st, ast.If):
-            t = A.norm(st.test)
-            r1 = [A.norm(s.value) for s in st.body if isinstance(s, ast.Return)]
-            r2 = [A.norm(s.value) for s in st.orelse if isinstance(s, ast.Return)]
-            shape = (t, r1, r2)
-    exp1 = (f"{p_resp}.directionality_flag==1", [f"{p_resp}.remote_node_id"], [p_local])
-    exp2 = (f"{p_resp}.directionality_flag==0", [p_local], [f"{p_resp}.remote_node_id"])
+    LOCAL, REMOTE = G.Sym("local node id"), G.Sym("remote node id")
+    shape = {}
+    try:
+        for flag in (0, 1):
+            shape[flag] = G.returned_value(g, {p_local: LOCAL, f"{p_resp}.remote_node_id": REMOTE, f"{p_resp}.directionality_flag": flag})
+    except Unknown as ex_:
+        shape = {"error": str(ex_)}
+    exp1 = exp2 = {0: LOCAL, 1: REMOTE}
     ctx.check("C12.D", "get_creator_node_id:directionality", shape in (exp1, exp2), f"creator/receiver discrimination is {shape}; expected flag 1 -> remote node created, else the local node", repo.loc(qc, g), sample={"shape": shape})
 
 
